@@ -259,13 +259,22 @@ Definition grp (old : bool) (rule : option vrule) (values : list val) : val :=
   | Some r => if old then vp_group_before_fix r values else vp_group_impl r values
   | None => vp_no_rule_group values
   end.
-Definition v_group (old : bool) (rules : list (string * vrule)) (d : dset) (by_ : list string) : dset :=
+(* `clause` = the aggr clause `DS[aggr Me := op(…) group …]`, false = the standalone form `op(DS group …)`.
+   They differ on one corner (as in Model/Aggr.v, C03_empty_operand_clause_without_grouping): with NO grouping identifier
+   left, the clause always yields exactly one datapoint — over an empty operand its viral value is the rule applied to the
+   empty group, which is null for every rule — whereas the standalone form yields one datapoint per non-empty group. *)
+Definition group_keys (d : dset) (by_ : list string) (clause : bool) : list (list val) :=
+  match filter (fun n => mem_s n by_) (d_ids d), clause with
+  | [], true => [[]]
+  | _, _ => nubk (map (gproj d by_) (d_rows d))
+  end.
+Definition v_group (old : bool) (rules : list (string * vrule)) (d : dset) (by_ : list string) (clause : bool) : dset :=
   let rule := rule_of rules d in
   mkD (filter (fun n => mem_s n by_) (d_ids d)) (d_ms d)
       (map (fun k => (k, if has_v d
                          then [grp old rule (vvals (filter (fun r => key_eqb k (gproj d by_ r)) (d_rows d)))]
                          else []))
-           (nubk (map (gproj d by_) (d_rows d)))).
+           (group_keys d by_ clause)).
 
 (* analytic invocation: every datapoint receives the combination over its partition *)
 Definition v_analytic (old : bool) (rules : list (string * vrule)) (d : dset) (part : list string) : dset :=
@@ -299,7 +308,7 @@ Inductive vexpr :=
 | XJoin (k : jkind) (a b : vexpr)              (* inner_join / left_join (more operands: nested to the left) *)
 | XUn (a : vexpr)                              (* unary, dataset∘scalar, parameterised operators *)
 | XCheckAll (rid : string) (a : vexpr)         (* check_datapoint(a, ruleset all), ruleset with the one rule rid *)
-| XAggr (a : vexpr) (by_ : list string)        (* aggregation, grouping identifiers already resolved *)
+| XAggr (a : vexpr) (by_ : list string) (clause : bool)   (* aggregation (clause / standalone form), grouping identifiers resolved *)
 | XAnalytic (a : vexpr) (part : list string)   (* analytic invocation, partition identifiers *)
 | XFilter (a : vexpr) (c : cexpr)              (* filter over identifiers / the viral attribute *)
 | XSame (a : vexpr)                            (* calc / keep / drop / rename of measures *)
@@ -317,7 +326,7 @@ Inductive opclass :=
 Definition class_of (x : vexpr) : opclass :=
   match x with
   | XBin _ _ | XJoin _ _ _ => OcCombine
-  | XAggr _ _ | XAnalytic _ _ => OcGroup
+  | XAggr _ _ _ | XAnalytic _ _ => OcGroup
   | XUn _ | XCheckAll _ _ => OcRowPreserving
   | XVar _ | XFilter _ _ | XSame _ | XSub _ _ | XSet _ _ _ => OcUnchanged
   | XSetViral _ _ _ | XDropViral _ => OcSet
@@ -330,7 +339,7 @@ Fixpoint veval (old : bool) (rules : list (string * vrule)) (e : denv) (x : vexp
   | XJoin k a b => bind (veval old rules e a) (fun da => bind (veval old rules e b) (fun db => v_combine k rules da db))
   | XUn a => bind (veval old rules e a) (fun d => Ok (v_unary rules d))
   | XCheckAll rid a => bind (veval old rules e a) (fun d => Ok (v_check_all rules rid d))
-  | XAggr a by_ => bind (veval old rules e a) (fun d => Ok (v_group old rules d by_))
+  | XAggr a by_ cl => bind (veval old rules e a) (fun d => Ok (v_group old rules d by_ cl))
   | XAnalytic a part => bind (veval old rules e a) (fun d => Ok (v_analytic old rules d part))
   | XFilter a c => bind (veval old rules e a) (fun d => d_filter d c)
   | XSame a => veval old rules e a
@@ -360,7 +369,7 @@ Fixpoint vstatic (e : senv) (x : vexpr) : res sstruct :=
   | XJoin k a b => bind (vstatic e a) (fun sa => bind (vstatic e b) (fun sb => s_combine k sa sb))
   | XUn a | XSame a | XFilter a _ | XAnalytic a _ => vstatic e a
   | XCheckAll _ a => bind (vstatic e a) (fun s => Ok (fst s ++ ["ruleid"], snd s))
-  | XAggr a by_ => bind (vstatic e a) (fun s => Ok (filter (fun n => mem_s n by_) (fst s), snd s))
+  | XAggr a by_ _ => bind (vstatic e a) (fun s => Ok (filter (fun n => mem_s n by_) (fst s), snd s))
   | XSub a fixed => bind (vstatic e a) (fun s => Ok (filter (fun n => negb (mem_s n (map fst fixed))) (fst s), snd s))
   | XSetViral a n _ => bind (vstatic e a) (fun s => Ok (fst s, [n]))
   | XDropViral a => bind (vstatic e a) (fun s => Ok (fst s, []))
